@@ -95,3 +95,33 @@ def scratch_dir(prefix: str) -> Path:
 
     base = os.environ.get("VERIF_SCRATCH", "/var/tmp")
     return Path(tempfile.mkdtemp(prefix=prefix, dir=base))
+
+
+_PH = None
+
+
+def canon_ids(t):
+    """rename placeholder ids (LINECOMMENT / BLOCKCOMMENT / INCLUDE / EXPRESSION / STRINGLITERAL + 6 digits) by first
+    occurrence, per kind, in keys and string values: results become independent of the counter value"""
+    import re
+
+    pat = re.compile(r"(LINECOMMENT|BLOCKCOMMENT|INCLUDE|EXPRESSION|STRINGLITERAL)(\d{6})")
+    seen: dict[tuple[str, str], int] = {}
+    counts: dict[str, int] = {}
+
+    def ren(m):
+        k = (m.group(1), m.group(2))
+        if k not in seen:
+            seen[k] = counts.get(m.group(1), 0)
+            counts[m.group(1)] = seen[k] + 1
+        return f"{m.group(1)}#{seen[k]}"
+
+    def go(x):
+        if isinstance(x, dict):
+            return {(pat.sub(ren, k) if isinstance(k, str) else k): go(v) for k, v in x.items()}
+        if isinstance(x, list):
+            return [go(v) for v in x]
+        if isinstance(x, str):
+            return pat.sub(ren, x)
+        return x
+    return go(t)
